@@ -12,7 +12,7 @@
    multiplication): rn with any positive weighting, uniform_discr, product
    spaces are instances (Instances.v, Lists.v). *)
 From Coq Require Import Reals List Bool.
-From Verif Require Import Base.Num Base.Vec C09.Model C09.IPS C09.Proofs C09.Instances C09.Lists C09.Pointwise C09.Matrix C09.Product C09.Moreau.
+From Verif Require Import Base.Num Base.Vec C09.Model C09.IPS C09.Proofs C09.Instances C09.Lists C09.Pointwise C09.Matrix C09.Product C09.Moreau C09.KL.
 Local Open Scope R_scope.
 
 (* T1 (gradient rules, all trees).  For every expression tree, of any depth and
@@ -219,6 +219,29 @@ Theorem huber_lipschitz_on_lists : forall (n : nat) (w : Vn n), Forall (fun a =>
               <= c * norm (lspace n w) (ssub x y).
 Proof. exact sleaf_huber_lip. Qed.
 Print Assumptions huber_lipschitz_on_lists.
+
+(* T2 (Kullback-Leibler family on weighted lists; prior g, `prior=None` is g = 1).
+   [sleaf_sep n w phi dphi g] has value sum_i w_i phi(g_i, x_i) (= <phi(g,x), one>)
+   and gradient (dphi(g_i, x_i))_i.  These leaves use ln/exp and exist at R only:
+   their tie to the code is by probes, not by the Q correspondence.
+     KullbackLeibler                       x - g + g ln(g/x)     grad 1 - g/x      (x, g > 0)
+     KullbackLeiblerConvexConj             - g ln(1 - x)         grad g/(1 - x)    (x < 1, g >= 0)
+     KullbackLeiblerCrossEntropy           g - x + x ln(x/g)     grad ln(x/g)      (x, g > 0)
+     KullbackLeiblerCrossEntropyConvexConj g (exp x - 1)         grad g exp x      (g >= 0) *)
+Theorem kullback_leibler_sound : forall (n : nat) (w : Vn n), Forall (fun a => 0 < a) (vl w) ->
+  forall g x : Vn n, Forall2 kl_dom (vl g) (vl x) -> leaf_sound (sleaf_sep n w kl_phi kl_dphi g) x.
+Proof. exact kl_sound. Qed.
+Theorem kullback_leibler_convex_conj_sound : forall (n : nat) (w : Vn n), Forall (fun a => 0 < a) (vl w) ->
+  forall g x : Vn n, Forall2 klcc_dom (vl g) (vl x) -> leaf_sound (sleaf_sep n w klcc_phi klcc_dphi g) x.
+Proof. exact klcc_sound. Qed.
+Theorem kl_cross_entropy_sound : forall (n : nat) (w : Vn n), Forall (fun a => 0 < a) (vl w) ->
+  forall g x : Vn n, Forall2 kl_dom (vl g) (vl x) -> leaf_sound (sleaf_sep n w klce_phi klce_dphi g) x.
+Proof. exact klce_sound. Qed.
+Theorem kl_cross_entropy_convex_conj_sound : forall (n : nat) (w : Vn n), Forall (fun a => 0 < a) (vl w) ->
+  forall g x : Vn n, Forall2 (fun g0 _ => 0 <= g0) (vl g) (vl x) ->
+  leaf_sound (sleaf_sep n w klcecc_phi klcecc_dphi g) x.
+Proof. exact klcecc_sound. Qed.
+Print Assumptions kl_cross_entropy_sound.
 
 (* Non-vacuity: rn(1, weighting=w) satisfies the laws for every w > 0, and a
    tree using all eleven constructors satisfies every premise at every point. *)
